@@ -344,6 +344,9 @@ def run(chk, repo, tier):
     run_h7(chk, repo, in_scope)
     run_h8_h10(chk, repo)
     run_h11(chk, repo)
+    run_h12(chk, repo)
+    from rules.C05 import run_o12_o13
+    run_o12_o13(chk, repo)
 
     # ---------------------------------------------------------------- H5
     mh = repo.cls('pharmpy.workflows.hashing.ModelHash').methods.get('__init__')
@@ -622,3 +625,40 @@ def run_h11(chk, repo):
                                   'from_dict(to_dict(s)) != s and the model gets another hash')
     if n == 0:
         raise AnalysisError('H11: no class with a normalising create() and a from_dict found')
+
+
+def run_h12(chk, repo):
+    """H12: what enters a hash must be a function of the data only. repr()/str() of a pandas Index / Series is display text:
+    it is abbreviated with `...` beyond display.max_seq_items / max_rows and wrapped at display.width, so it depends on the
+    options of the process and leaves out the middle entries. The entries have to be materialised (list / tuple / tolist)"""
+    H12 = chk.rule('H12', 'workflows/hashing.py: pandas containers (columns, index, dtypes) enter the hash entry by entry, not as '
+                          'their display text', floor=2)
+    hm = repo.module('pharmpy.workflows.hashing')
+    n = 0
+    for f in dict.values(hm.functions):
+        for c in [c for c in ast.walk(f.node) if isinstance(c, ast.Call) and isinstance(c.func, ast.Name)
+                  and c.func.id in ('repr', 'str', 'format') and len(c.args) == 1]:
+            a = c.args[0]
+            inner, wrapped = a, False
+            while True:
+                if isinstance(inner, ast.Call) and isinstance(inner.func, ast.Name) and inner.func.id in (
+                        'list', 'tuple', 'sorted') and inner.args:
+                    inner, wrapped = inner.args[0], True
+                elif isinstance(inner, ast.Call) and isinstance(inner.func, ast.Attribute) and inner.func.attr in (
+                        'tolist', 'to_list', 'to_dict', 'items'):
+                    inner, wrapped = inner.func.value, True
+                else:
+                    break
+            if not (isinstance(inner, ast.Attribute) and inner.attr in ('columns', 'index', 'dtypes', 'values')):
+                continue
+            n += 1
+            chk.instance(H12, f'{f.qualname}: {unparse(c)}: entries materialised: {wrapped}')
+            if not wrapped:
+                chk.violation(H12, hm.rel, f.qualname, unparse(c),
+                              f'the display text of `{unparse(inner)}` is hashed: it is abbreviated and wrapped according to the '
+                              f'pandas display options of the process, so the key of one model differs between processes and '
+                              f'datasets that differ in the elided entries collide', line=c.lineno,
+                              witness='pd.set_option("display.max_seq_items", 10) in one of two processes; a dataset with more '
+                                      'than 100 columns / a filtered dataset (non-range index)')
+    if n < 2:
+        raise AnalysisError(f'H12: only {n} pandas containers found in the dataset hash')
